@@ -26,7 +26,6 @@ import (
 	"io"
 	"net"
 	"net/http"
-	"net/http/httputil"
 	"net/url"
 	"sync"
 	"syscall"
@@ -967,12 +966,12 @@ func (s *Stream) upgrade(uri *url.URL, stream sonic.Stream, headers []Header) er
 		return err
 	}
 
-	rawRes, err := httputil.DumpResponse(res, true)
-	if err != nil {
-		return err
+	// The response ends with the blank line after the headers; locate it in the bytes received, not in a
+	// re-serialisation of the parsed response, which normalises whitespace and header case.
+	resLen := len(s.handshakeBuffer)
+	if ix := bytes.Index(s.handshakeBuffer, []byte("\r\n\r\n")); ix >= 0 {
+		resLen = ix + 4
 	}
-
-	resLen := len(rawRes)
 	extra := len(s.handshakeBuffer) - resLen
 	if extra > 0 {
 		// we got some frames as well with the handshake so we can put
